@@ -56,11 +56,18 @@ class StrDom(LinDom):
             self.strlen_of[n] = args[0]
             return n
         if name == 'a_utf_encode':
-            n = self.fresh('enc', nonnegative=True)
-            self.facts.append(fm.le(n, 6))
+            # the length is a function of the code point alone (with or without a buffer: C18 U3 and its buf == NULL clause), at most
+            # 6, and exactly that many bytes are written (C18 U2): one symbol per code-point argument
+            if not hasattr(self, 'enc_of'):
+                self.enc_of = {}
+            key = str(args[0])
+            if key not in self.enc_of:
+                self.enc_of[key] = self.fresh('enc', nonnegative=True)
+                self.facts.append(fm.le(self.enc_of[key], 6))
+            n = self.enc_of[key]
             buf = args[1]
             if isinstance(buf, Ptr) and buf.base != 'null':
-                e = Effect('write', 'a_utf_encode', buf.base, buf.off, 6, ins)   # writes at most 6 bytes (rule U2 of C18)
+                e = Effect('write', 'a_utf_encode', buf.base, buf.off, n, ins)
                 e.cap = self.cap_now(interp, st)
                 st.calls.append(e)
             return n
@@ -238,6 +245,15 @@ def analyse(ctx, fn, m, hdr, off, names, rep):
                             offx = lf.offs.get((b, kk), kk)
                             try:
                                 if all(fm.entails(cs.cons, lin.subst_con(g, cs.kenv)) for g in fm.eq(sp.sympify(offx), fin['num_'])):
+                                    okn = True
+                            except fm.NonLinear:
+                                pass
+                    for e in lf.calls:
+                        # a block of zero bytes that covers the new end: off <= num_ < off + size
+                        if isinstance(e, Effect) and getattr(e, 'zero', False) and e.base == '*ptr_' and e.size is not None:
+                            try:
+                                gz = [fm.le(sp.sympify(e.off), fin['num_']), fm.lt(fin['num_'], sp.sympify(e.off) + sp.sympify(e.size))]
+                                if all(fm.entails(cs.cons, lin.subst_con(g, cs.kenv)) for g in gz):
                                     okn = True
                             except fm.NonLinear:
                                 pass
